@@ -21,6 +21,11 @@ def explore(ctx, depth):
     late_signatures(ctx, depth)
     cases = docrun.make_cases(ctx, 15 if depth == 'quick' else 120, kern_only=True, profiles=('core',), comments=False, max_measures=5, double_bars=True)
     rng = ctx.rng
+    # scores in which one branch of a split is split again and everything is re-joined before the barline (n-way joins): the fragments after
+    # it must still be addressed by their pairs (round 6, C19_r6_1: only the first `*v` of a join group closed its split)
+    import gen as _gen
+    nd = [d_ for d_ in (_gen.nested_split_doc(rng) for _ in range(12 if depth == 'quick' else 80)) if d_.get('nest') != 'both'][:5 if depth == 'quick' else 40]
+    cases += docrun.make_cases(ctx, 0, docs=nd)
     docrun.fill_views(ctx, cases, 'kern', docrun.ALLC, '_v')
     for case in cases:
         if case.doc is None:
@@ -45,6 +50,8 @@ def explore(ctx, depth):
                 # fragments as they come from Windows files: CRLF line ends and an empty line at the end of every fragment but the last
                 crlf = [f.replace('\n', '\r\n') + ('\r\n\r\n' if k < len(frags) - 1 else '\r\n') for k, f in enumerate(frags)]
                 variants.append(('', crlf, 'crlf+blank'))
+                # fragments whose lines end with a bare carriage return (old Mac line ends; `loads` reads them: round 6, C19_r6_2)
+                variants.append(('', [f.replace('\n', '\r') + '\r' for f in frags], 'cr'))
             if len(cuts) >= 1 and len(cuts) <= 2:
                 # text read from a file saved as "UTF-8 with signature": whatever loads() makes of the joined text, concat makes of the fragments
                 for sep_b, cont_b in (('\n', ['\ufeff' + frags[0]] + frags[1:]), ('', ['\ufeff' + frags[0] + '\n'] + [f + '\n' for f in frags[1:]])):
